@@ -1,4 +1,5 @@
 import RV.C11.Model
+import RV.C11.N3
 import RV.Base.Proto
 /-
   C11 driver.  Terms are naturals owned by the harness.
@@ -10,6 +11,17 @@ import RV.Base.Proto
                                   (the model of translatePath):
                   i N | A K <tree>×K (K ≥ 1, PathAlternative) | S K <tree>×K (K ≥ 1, PathSequence)
                   | E ?|*|+|- <tree> (PathElt) | V <tree> (PathEltOrInverse) | N F B f1 … fF b1 … bB
+    n3 <path>                  -> `n3|` + the tokens `Path.n3()` writes for the built path: iN ^ / | ( ) ! ? * +
+    readn3 tok…                -> `unreadable`, or the tree the reader builds (same prefix form as evalsyn's input)
+                                  ` => ` the path `translate` makes of it (prefix form of `eval`'s input)
+    evaln3 S O <path>          -> `unreadable`, or the `eval` answer of translate (read (n3 (build path)))
+    evalf S O <path>           -> for a path `m mod X`: the answer of MulPath.eval(…, first=False) (`T|pairs`, a list); else bad-op
+    api S O <path>             -> the Graph API answers for the built path (gContains / gObjects / gSubjects /
+                                  gSubjectObjects / g…OfList / gValue…):
+                                    S O given:  in|T or in|F
+                                    S given:    objs|set|uniq|sorted unique=True list|twice|objects([S,S],unique=True)|value|0/1
+                                    O given:    subjs|…   (same with subjects)
+                                    none:       so|set of pairs|uniq|sorted unique=True list
         S, O  = a term or `*` (end not given)
         path  = prefix form of the expression the user wrote; the driver applies `build`
                 (the constructors' flattening) before evaluating:
@@ -135,6 +147,72 @@ def answer (g : Graph) (q : Path) (s o : Option Nat) : String :=
   let r := evalPath g q s o
   (if ok then "T|" else "F|") ++ showPairs (if q.isClosure then r else dedupInto [] r)
 
+/-! ### round g: n3 writer / SPARQL path reader -/
+
+def showMod : Mod → String
+  | .zeroOrOne => "?" | .zeroOrMore => "*" | .oneOrMore => "+"
+
+def showTok : Tok → String
+  | .iri p => "i" ++ toString p
+  | .hat => "^" | .slash => "/" | .bar => "|" | .lp => "(" | .rp => ")" | .bang => "!"
+  | .mod m => showMod m
+
+def tok? (w : String) : Option Tok :=
+  if w = "^" then some .hat else if w = "/" then some .slash else if w = "|" then some .bar
+  else if w = "(" then some .lp else if w = ")" then some .rp else if w = "!" then some .bang
+  else match mod? w with
+    | some m => some (.mod m)
+    | none => if w.startsWith "i" then (w.drop 1).toNat?.map Tok.iri else none
+
+def toks? : List String → Option (List Tok)
+  | [] => some []
+  | w :: ws => do
+    let t ← tok? w
+    let r ← toks? ws
+    pure (t :: r)
+
+mutual
+def showSyn : Syn → List String
+  | .iri p => ["i", toString p]
+  | .altS x xs => ["A", toString (xs.length + 1)] ++ showSyn x ++ showSyns xs
+  | .seqS x xs => ["S", toString (xs.length + 1)] ++ showSyn x ++ showSyns xs
+  | .elt x none => "E" :: "-" :: showSyn x
+  | .elt x (some m) => "E" :: showMod m :: showSyn x
+  | .invS x => "V" :: showSyn x
+  | .nps fw bw => ["N", toString fw.length, toString bw.length] ++ fw.map toString ++ bw.map toString
+def showSyns : List Syn → List String
+  | [] => []
+  | x :: xs => showSyn x ++ showSyns xs
+end
+
+mutual
+def showPath : Path → List String
+  | .iri p => ["i", toString p]
+  | .inv x => "v" :: showPath x
+  | .seq a as => ["s", toString (as.length + 1)] ++ showPath a ++ showPaths as
+  | .alt as => ["a", toString as.length] ++ showPaths as
+  | .mul x m => "m" :: showMod m :: showPath x
+  | .neg fw bw => ["n", toString fw.length, toString bw.length] ++ fw.map toString ++ bw.map toString
+def showPaths : List Path → List String
+  | [] => []
+  | x :: xs => showPath x ++ showPaths xs
+end
+
+def showTerms (ts : List Term) : String := " ".intercalate ((sortBy lexLt (ts.map (fun t => [t]))).map showNats)
+
+def apiLine (g : Graph) (q : Path) : Option Nat → Option Nat → String
+  | some a, some b => "in|" ++ (if gContains g q a b then "T" else "F")
+  | some a, none =>
+    "objs|" ++ showTerms (uniq [] (gObjects g q (some a) false)) ++ "|uniq|" ++ showTerms (gObjects g q (some a) true) ++
+    "|twice|" ++ showTerms (gObjectsOfList g q [a, a] true) ++
+    "|value|" ++ (match gValueObj g q a with | some _ => "1" | none => "0")
+  | none, some b =>
+    "subjs|" ++ showTerms (uniq [] (gSubjects g q (some b) false)) ++ "|uniq|" ++ showTerms (gSubjects g q (some b) true) ++
+    "|twice|" ++ showTerms (gSubjectsOfList g q [b, b] true) ++
+    "|value|" ++ (match gValueSubj g q b with | some _ => "1" | none => "0")
+  | none, none =>
+    "so|" ++ showPairs (uniq [] (gSubjectObjects g q false)) ++ "|uniq|" ++ showPairs (gSubjectObjects g q true)
+
 def step (g : Graph) : List String → Graph × String
   | "graph" :: ws =>
     match triples? ws with
@@ -147,6 +225,35 @@ def step (g : Graph) : List String → Graph × String
   | "evalsyn" :: s :: o :: ws =>
     match optNat? s, optNat? o, syn? (ws.length + 1) ws with
     | some s, some o, some (t, []) => (g, answer g (translate t) s o)
+    | _, _, _ => (g, "bad-op")
+  | "evalf" :: s :: o :: ws =>
+    match optNat? s, optNat? o, path? (ws.length + 1) ws with
+    | some s, some o, some (p, []) =>
+      match build p with
+      | .mul q m => (g, "T|" ++ showPairs (mulEvalF g (evalPath g q) m false s o))
+      | _ => (g, "bad-op")
+    | _, _, _ => (g, "bad-op")
+  | "api" :: s :: o :: ws =>
+    match optNat? s, optNat? o, path? (ws.length + 1) ws with
+    | some s, some o, some (p, []) => (g, apiLine g (build p) s o)
+    | _, _, _ => (g, "bad-op")
+  | "n3" :: ws =>
+    match path? (ws.length + 1) ws with
+    | some (p, []) => (g, "n3|" ++ " ".intercalate ((n3 (build p)).map showTok))
+    | _ => (g, "bad-op")
+  | "readn3" :: ws =>
+    match toks? ws with
+    | some ts =>
+      match readPath ts with
+      | some t => (g, " ".intercalate (showSyn t) ++ " => " ++ " ".intercalate (showPath (translate t)))
+      | none => (g, "unreadable")
+    | none => (g, "bad-op")
+  | "evaln3" :: s :: o :: ws =>
+    match optNat? s, optNat? o, path? (ws.length + 1) ws with
+    | some s, some o, some (p, []) =>
+      match reparse (build p) with
+      | some q => (g, answer g q s o)
+      | none => (g, "unreadable")
     | _, _, _ => (g, "bad-op")
   | _ => (g, "bad-op")
 
